@@ -359,6 +359,7 @@ type repOpts struct {
 	MaxTxGasWanted  uint64
 	IndexEvents     []string
 	Trace           bool
+	EVMTracer       string // node-local app option evm.tracer ("", json, struct, access_list, markdown)
 }
 
 type Replica struct {
@@ -387,6 +388,9 @@ func newReplica(g bhGenesis, o repOpts) *Replica {
 	ao := simtestutil.AppOptionsMap{"home": home}
 	if o.MaxTxGasWanted != 0 {
 		ao[srvflags.EVMMaxTxGasWanted] = o.MaxTxGasWanted
+	}
+	if o.EVMTracer != "" {
+		ao[srvflags.EVMTracer] = o.EVMTracer
 	}
 	bopts := []func(*baseapp.BaseApp){baseapp.SetChainID(chainID)}
 	if o.MinGasPrices != "" {
